@@ -64,6 +64,23 @@ type c13Sim struct {
 	served   []int
 }
 
+// c13Short: the kinds of AskOnceWithTimeout whose timer fires within the case (S 15 ms, Z zero, N negative, Y 1 µs)
+func c13Short(kind byte) bool { return kind == 'S' || kind == 'Z' || kind == 'N' || kind == 'Y' }
+
+func c13Timeout(kind byte) time.Duration {
+	switch kind {
+	case 'S':
+		return 15 * time.Millisecond
+	case 'Z':
+		return 0
+	case 'N':
+		return -time.Millisecond
+	case 'Y':
+		return time.Microsecond
+	}
+	return 30 * time.Second
+}
+
 func c13ParseSpec(spec string, n int) []c13Asker {
 	items := strings.Split(spec, ",")
 	as := make([]c13Asker, n)
@@ -176,7 +193,7 @@ func (s *c13Sim) op(tok string) (effective bool) {
 			effective = true
 		}
 	case 'w':
-		if i < s.n && s.as[i].kind == 'S' && s.as[i].pc == c13Waiting {
+		if i < s.n && c13Short(s.as[i].kind) && s.as[i].pc == c13Waiting {
 			s.as[i].pc = c13Fired
 			effective = true
 		}
@@ -436,7 +453,7 @@ func c13RunAsk(line string) string {
 				i := i
 				sp := specs[i]
 				name := "a" + strconv.Itoa(i)
-				if sp.kind == 'S' {
+				if c13Short(sp.kind) {
 					ctl.ParkAt(name, firedPoint)
 				}
 				ask := c13NewAskBy(c13Payload(i), sp.rcap, sp.ctor)
@@ -451,11 +468,7 @@ func c13RunAsk(line string) string {
 						ch := ask.AskChannel(actor)
 						setRes(i, "V"+strconv.Itoa(<-ch))
 					default:
-						d := 30 * time.Second
-						if sp.kind == 'S' {
-							d = 15 * time.Millisecond
-						}
-						v, err := ask.AskOnceWithTimeout(actor, d)
+						v, err := ask.AskOnceWithTimeout(actor, c13Timeout(sp.kind))
 						switch {
 						case err == nil:
 							setRes(i, "V"+strconv.Itoa(v))
@@ -546,7 +559,10 @@ func c13RunStress(line string) string {
 			return
 		}
 		lmu.Lock()
-		lat := time.Duration(lrng.Int63n(int64(2*to) + 1))
+		lat := time.Duration(0)
+		if to > 0 {
+			lat = time.Duration(lrng.Int63n(int64(2*to) + 1))
+		}
 		lmu.Unlock()
 		if lat > 20*time.Microsecond {
 			time.Sleep(lat)
@@ -657,7 +673,7 @@ func c13Drain(sim *c13Sim, ops []string) []string {
 		progressed := false
 		if sim.actor == 2 && !sim.released {
 			a := sim.as[sim.req]
-			if a.kind == 'S' && a.pc == c13Waiting {
+			if c13Short(a.kind) && a.pc == c13Waiting {
 				w := "w" + strconv.Itoa(sim.req)
 				sim.op(w)
 				ops = append(ops, w)
@@ -698,11 +714,12 @@ func c13Gen(tier string, rng *rand.Rand, emit func(string)) map[string]interface
 	// (1) the three orders of reply and timeout (reply first; timeout, then reply; reply blocked, then timeout), for
 	//     every kind of ask and reply-channel capacity, followed by a fresh ask that must be served
 	for _, mcap := range []int{0, 1} {
-		for _, x := range []string{"O0n", "O0o", "O1p", "C0g", "C0p", "C2o", "T0n", "T0o", "T1p", "S0n", "S0g", "S0o", "S0p", "S1o", "S1p"} {
+		for _, x := range []string{"O0n", "O0o", "O1p", "C0g", "C0p", "C2o", "T0n", "T0o", "T1p", "S0n", "S0g", "S0o", "S0p", "S1o", "S1p",
+			"Z0n", "Z0p", "Z1o", "N0g", "N0o", "Y0n", "Y0p"} {
 			for _, y := range []string{"O0n", "C0p", "T0g", "O0o"} {
 				spec := x + "," + y
 				var scheds [][]string
-				if x[0] == 'S' {
+				if c13Short(x[0]) {
 					scheds = [][]string{
 						{"a0", "w0", "u0", "r", "a1", "r"}, {"a0", "w0", "r", "u0", "a1", "r"},
 						{"a0", "a1", "w0", "r", "u0", "r"}, {"a0", "a1", "w0", "u0", "r", "r"},
@@ -712,7 +729,7 @@ func c13Gen(tier string, rng *rand.Rand, emit func(string)) map[string]interface
 					scheds = [][]string{{"a0", "r", "a1", "r"}, {"a0", "a1", "r", "r"}, {"a1", "a0", "r", "r"}}
 				}
 				for _, sc := range scheds {
-					if !thorough && ((x[0] != 'S' && rng.Intn(3) != 0) || (x[0] == 'S' && rng.Intn(2) == 0)) {
+					if !thorough && ((!c13Short(x[0]) && rng.Intn(3) != 0) || (c13Short(x[0]) && rng.Intn(3) != 0)) {
 						continue
 					}
 					emit(c13Line(mcap, 2, spec, sc))
@@ -728,7 +745,7 @@ func c13Gen(tier string, rng *rand.Rand, emit func(string)) map[string]interface
 	if thorough {
 		nRand = 600
 	}
-	kinds := []string{"O0n", "O0p", "O1o", "C0g", "C0o", "C1p", "T0n", "T0o", "T2p", "S0n", "S0g", "S0o", "S0p", "S1o"}
+	kinds := []string{"O0n", "O0p", "O1o", "C0g", "C0o", "C1p", "T0n", "T0o", "T2p", "S0n", "S0g", "S0o", "S0p", "S1o", "Z0n", "Z0p", "N0o", "N0g", "Y0p", "Z1o"}
 	for r := 0; r < nRand; r++ {
 		n := 1 + rng.Intn(5)
 		mcap := []int{0, 0, 1, 3}[rng.Intn(4)]
@@ -751,7 +768,7 @@ func c13Gen(tier string, rng *rand.Rand, emit func(string)) map[string]interface
 			default:
 				cand = "u" + strconv.Itoa(rng.Intn(n))
 			}
-			if cand == "r" && sim.actor == 2 && sim.as[sim.req].kind == 'S' && sim.as[sim.req].pc == c13Waiting {
+			if cand == "r" && sim.actor == 2 && c13Short(sim.as[sim.req].kind) && sim.as[sim.req].pc == c13Waiting {
 				cand = "w" + strconv.Itoa(sim.req)
 			}
 			// probe on a copy
@@ -776,7 +793,7 @@ func c13Gen(tier string, rng *rand.Rand, emit func(string)) map[string]interface
 	for rep := 0; rep < reps; rep++ {
 		for _, mcap := range []int{0, 4} {
 			for _, n := range []int{1, 4, 16} {
-				for _, to := range []int{100, 1000} {
+				for _, to := range []int{0, -5, 100, 1000} {
 					emit(fmt.Sprintf("askstress mcap=%d n=%d m=%d rcap=%d to=%d seed=%d", mcap, n, m, 1+rng.Intn(2), to, rng.Intn(1000000)))
 					nStress++
 				}
